@@ -572,6 +572,18 @@ def r7_reload_tristate(chk: Check):
     c12.r3_tristate(chk)
 
 
+def r8_released_decision(chk: Check):
+    """Which arguments enter the byte stream is part of the released format: any drift of the argument-loop decision from the documented
+    rule -- in either direction -- changes identifiers computed by earlier releases (= C02.R2 and its C03 counterpart)"""
+    from .c02 import r2_table
+
+    r2_table(chk, direction="emitted")
+    r2_table(chk, direction="skipped")
+    from .c03 import init_tasks_attached_first
+
+    init_tasks_attached_first(chk)
+
+
 RULES = [
     ("R1", "no nondeterministic source (hash(), id(), environment, time, random, repr/str of objects) reaches the hasher", r1_no_nondeterminism),
     ("R2", "every loop feeding the hasher iterates in sorted order, or in an order that is part of the signature (list payload, init tasks)", r2_canonical_order),
@@ -580,4 +592,5 @@ RULES = [
     ("R5", "Job.relpath / relmainpath / identifier read only the type identifier and the configuration identifier", r5_jobpath),
     ("R6", "declared defaults are cloned into instances, never aliased", r6_defaults_not_aliased),
     ("R7", "reloading keeps the three states of the meta flag (absent stays unset): the identifier recomputed in another process equals the original (= C12.R3)", r7_reload_tristate),
+    ("R8", "the argument-loop decision (which arguments are hashed) equals the documented rule in both directions: a drift changes released identifiers (= C02.R2, C03.R10); init tasks attached before the identifier can be asked for", r8_released_decision),
 ]
